@@ -286,6 +286,61 @@ impl<'a> Sem<'a> {
         }
         self.for_each_model(must, |_| true)
     }
+    /// Is there a selection containing all of `must` that is valid when the solvables in `exempt`
+    /// (directly named soft requirements) enjoy the documented exemption from their own package's lock
+    /// and exclusion list? Brute force over all selections with at most one solvable per package, where
+    /// an exempt solvable may be chosen although it is excluded / locked out / unlisted.
+    pub fn sat_with_exempt(&self, must: &[Id], exempt: &[Id]) -> bool {
+        for (i, &a) in must.iter().enumerate() {
+            for &b in &must[i + 1..] {
+                if a != b && self.u.solvs[a as usize].name == self.u.solvs[b as usize].name {
+                    return false;
+                }
+            }
+        }
+        // per package: the listed candidates plus the exempt solvables of that package
+        let mut options: Vec<Vec<Id>> = vec![];
+        for n in 0..self.u.names.len() as Id {
+            let mut o: Vec<Id> = self.cands(n).to_vec();
+            for &e in exempt {
+                if self.u.solvs[e as usize].name == n && !o.contains(&e) {
+                    o.push(e);
+                }
+            }
+            if let Some(&m) = must.iter().find(|&&m| self.u.solvs[m as usize].name == n) {
+                if !o.contains(&m) {
+                    return false;
+                }
+                o = vec![m];
+                options.push(o);
+            } else if !o.is_empty() {
+                o.insert(0, u32::MAX); // "none of this package"
+                options.push(o);
+            }
+        }
+        let mut sel = vec![false; self.u.solvs.len()];
+        fn go(sem: &Sem, options: &[Vec<Id>], i: usize, sel: &mut Sel, exempt: &[Id]) -> bool {
+            if i == options.len() {
+                return sem.check_valid(sel, exempt).is_ok();
+            }
+            for &c in &options[i] {
+                if c == u32::MAX {
+                    if go(sem, options, i + 1, sel, exempt) {
+                        return true;
+                    }
+                    continue;
+                }
+                sel[c as usize] = true;
+                let ok = go(sem, options, i + 1, sel, exempt);
+                sel[c as usize] = false;
+                if ok {
+                    return true;
+                }
+            }
+            false
+        }
+        go(self, &options, 0, &mut sel, exempt)
+    }
     pub fn count_models(&self) -> u64 {
         let mut n = 0;
         self.for_each_model(&[], |_| {
